@@ -355,14 +355,19 @@ func DecodeValue(src string, pos int) (ret int, v types.JsonState) {
 		return ret, types.JsonState{Vt: types.V_FALSE}
 	case '-', '+', '0', '1', '2', '3', '4', '5', '6', '7', '8', '9':
 		var iv int64
-		ret, iv, _ = decodeInt64(src, pos)
-		if ret >= 0 {
+		var err error
+		ret, iv, err = decodeInt64(src, pos)
+		if ret >= 0 && err == nil {
 			return ret, types.JsonState{Vt: types.V_INTEGER, Iv: iv, Ep: int64(pos)}
-		} else if ret != -int(types.ERR_INVALID_NUMBER_FMT) {
+		} else if ret < 0 && ret != -int(types.ERR_INVALID_NUMBER_FMT) {
 			return ret, types.JsonState{Vt: types.ValueType(ret)}
 		}
+		// NOTICE: an integer out of int64 range is decoded as a float, like the native vnumber() does
 		var fv float64
-		ret, fv, _ = decodeFloat64(src, pos)
+		ret, fv, err = decodeFloat64(src, pos)
+		if ret >= 0 && err != nil {
+			ret = -int(types.ERR_FLOAT_INFINITY)
+		}
 		if ret >= 0 {
 			return ret, types.JsonState{Vt: types.V_DOUBLE, Dv: fv, Ep: int64(pos)}
 		} else {
